@@ -1,5 +1,13 @@
 """C09 - 3D bond-orientational order equals Steinhardt's definitions (E1 over neighbour topologies, E2 over
-frame histories, crystals)."""
+frame histories, crystals).
+
+Round-4 slices (docs/STRENGTHEN_TASK2.md; alphabets in mc/ref/c09y.py):
+  C09.frames    L2 / L4: trajectories whose frames differ in CLASS (table width of the neighbour and the weight file, orthogonal vs tilted cell, all-equal /
+                varied / zero-containing / integer-token weights), all ordered pairs and triples of classes
+  C09.files     every output-file branch of ql_Ql, sij_ql_Ql, w_W_cap (name forms with and without .npy / .dat / .txt)
+  C09.types     L5 / L7 / L8: ppp, position storage, numpy integers, particles on box faces, unwrapped coordinates, dilated cells, explicit zero options
+  C09.sequence  L6: call words over (object, call) letters in forked children with re-imported library modules (in addition to the single-object search)
+  C09.crystals  the tabulated crystals also dilated by 2^-33 / 2^27"""
 import itertools
 import math
 import os
@@ -10,6 +18,7 @@ from mc import alphabets as A
 from mc.harness import Result, Sub, digest
 from mc.ref import boo as B
 from mc.ref import c09x as X
+from mc.ref import c09y as Y
 from mc.ref.base import close, frac_tie_margin, maxdiff, mk_snaps, write_neighbor_file, write_weight_file
 
 ASSUMPTIONS = [
@@ -17,7 +26,7 @@ ASSUMPTIONS = [
     "1e-7 to a half-cell tie are screened out before the library runs",
     "reference Y_lm: Condon-Shortley convention, m = -l..l in this order, from exact rational Legendre coefficients "
     "(mc/ref/boo.py); 3j symbols from the exact-rational Racah formula; float tolerance rtol 1e-9 / atol 1e-11",
-    "weights are positive (the 3D normalisation is by the plain row sum); every particle has >= 1 neighbour and "
+    "weights are non-negative with a positive row sum (the 3D normalisation is by the plain row sum; single exact zeros: C09.frames / C09.types); every particle has >= 1 neighbour and "
     "cn <= Nmax; the weight file has the topology of the neighbour file",
     "s_ij is stored as float32: values compared at 5e-7, |s_ij| <= 1 + 1e-6, the thresholded count is an interval "
     "oracle (bonds with |s_ij - c| < 1e-6 may count either way); the count is only observable in the outputqlQl csv "
@@ -37,6 +46,21 @@ ASSUMPTIONS = [
     "placements with a periodic fractional pair component within 1e-9 of a half-cell tie or a pair within 1e-9 of a bin edge are replaced by the next hash table; "
     "library-written Voronoi weights may contain 0.000000 entries (faces below the 6-decimal output): accepted as long as the row sum is positive",
     "call sequences: a call on an object that has served other calls must return what the same call returns on a fresh object (rtol 1e-12)",
+    "call words (round 4): every call of a word made in ONE forked child (library modules re-imported) returns bit for bit what the same call returns when it is the first "
+    "call of a fresh child; objects built inside a word stay alive until the word ends; the letters with a shared file NAME rewrite that file and build a new object each time",
+    "frame classes (round 4): boxlength is asserted constant by the library, so only the tilt factors change between frames; a frame whose largest coordination number is smaller "
+    "than another frame's is read into a narrower table (read_neighbors trims to the frame's own maximum) - the definition is applied per frame",
+    "weights (round 4): a single exact zero among the weights of a particle is inside the domain (the bond drops out of q_lm but the neighbour still counts in the coarse-graining "
+    "mean over 1 + N_i and in s_ij); a row summing to zero is outside; weights may be written as integer tokens ('1 2 1')",
+    "Nmax below a coordination number: `Neighborlist[:, 0] > Nmax` in sij_ql_Ql (ValueError 'increase Nmax') is unreachable - read_neighbors already stores min(cn, Nmax) and the "
+    "first Nmax entries, which is what its docstring ('the maximum number of neighboring particles to consider') says; the check demands that truncation, never the exception",
+    "storage forms (round 4): ppp as list / tuple / bool / int32 array, positions as float32 (compared at 2e-6: the bond differences are formed in float32; thresholded and binned "
+    "quantities are not demanded there), Fortran-ordered or strided position arrays, l as np.int64, Nmax as np.int32 are all accepted like the canonical forms; unwrapped "
+    "coordinates (whole cell vectors added along periodic axes) and a dilation of cell and positions by 2^-33 / 2^27 leave q_lm, q_l, w_l, s_ij unchanged; spatial_corr of the "
+    "dilated cells is left to C13; explicit zeros for options with defaults (c = 0, dt = 0.0) are values, not requests for the default",
+    "output files (round 4): ql_Ql / w_W_cap write <name>.npy (np.save appends '.npy' unless the name ends with it) holding the returned array, and for names ending in .dat / .txt "
+    "additionally a text file of F rows x N columns '%.6f'; sij_ql_Ql writes the csv (id,sum_sij,num_neighbors as integers) and the text file ('id CN sij' header, '%d %d %.6f ..' rows "
+    "trimmed to the largest coordination number of the trajectory) independently of each other; nothing is demanded about files that were not requested",
     "tabulated crystal values (Steinhardt et al. 1983, Mickel et al. 2013, six decimals) compared at 1e-5; "
     "w-hat_4 of the icosahedron (q_4 = 0) is undefined and not compared",
 ]
@@ -187,13 +211,15 @@ def sij_rows(ret, F, n):
     return np.asarray(ret)
 
 
-def check_sij(R, sig, b, qs, nls, coarse, c, files, nmax, sijref=None):
+def check_sij(R, sig, b, qs, nls, coarse, c, files, nmax, sijref=None, csv=True):
     """s_ij, padding, thresholded count (csv) and the text file for all frames.  qs: reference q (or Q) per frame.
-    sijref: reference s_ij routine (default the literal double loop; the scale slice passes the vectorised one)."""
+    sijref: reference s_ij routine (default the literal double loop; the scale slice passes the vectorised one).
+    csv=False: outputqlQl is NOT requested (the count is then not observable); files=False: outputsij is not requested."""
     sijref = sijref or B.ref_sij
     F, n = len(qs), qs[0].shape[0]
-    csvf = "c09_sum.csv"
+    csvf = "c09_sum.csv" if csv else None
     txt = "c09_sij.dat" if files else None
+    Y.rm(txt)
     ret = b.sij_ql_Ql(coarse_graining=coarse, c=c, outputqlQl=csvf, outputsij=txt)
     arr = sij_rows(ret, F, n)
     sg = dict(sig, coarse=coarse)
@@ -202,11 +228,17 @@ def check_sij(R, sig, b, qs, nls, coarse, c, files, nmax, sijref=None):
         return 0
     import pandas as pd
 
-    tab = pd.read_csv(csvf)
-    open(csvf, "w").close()  # truncate: a result that is not rewritten by the next call cannot be mistaken for a fresh one
-    if list(tab.columns) != ["id", "sum_sij", "num_neighbors"] or len(tab) != F * n:
-        R.fail(f"csv layout {list(tab.columns)} x {len(tab)}", sub="C09.sij", sig=dict(sg, clause="csv_layout"))
-        return 0
+    if csv:
+        tab = pd.read_csv(csvf)
+        raw = Y.read_tokens(csvf)
+        open(csvf, "w").close()  # truncate: a result that is not rewritten by the next call cannot be mistaken for a fresh one
+        if list(tab.columns) != ["id", "sum_sij", "num_neighbors"] or len(tab) != F * n:
+            R.fail(f"csv layout {list(tab.columns)} x {len(tab)}", sub="C09.sij", sig=dict(sg, clause="csv_layout"))
+            return 0
+        if not all(Y.INT_.match(t) for r in raw[1:] for t in r[0].split(",")):
+            R.fail("csv entries are not written as integers (%d)", sub="C09.sij", sig=dict(sg, clause="csv_format"))
+    else:
+        tab = None
     elem = 0
     maxcn = max(len(x) for nl in nls for x in nl)
     if arr.shape[1] < 2 + maxcn:
@@ -217,7 +249,7 @@ def check_sij(R, sig, b, qs, nls, coarse, c, files, nmax, sijref=None):
         for i in range(n):
             row = arr[f * n + i]
             ni = len(nls[f][i])
-            if int(row[0]) != i + 1 or int(row[1]) != ni or int(tab["id"][f * n + i]) != i + 1 or int(tab["num_neighbors"][f * n + i]) != ni:
+            if int(row[0]) != i + 1 or int(row[1]) != ni or (csv and (int(tab["id"][f * n + i]) != i + 1 or int(tab["num_neighbors"][f * n + i]) != ni)):
                 R.fail("id / coordination-number columns wrong", sub="C09.sij", sig=dict(sg, clause="idcn"), exp=[i + 1, ni], obs=row[:2])
                 continue
             if np.any(row[2 + ni:] != 0):
@@ -232,6 +264,8 @@ def check_sij(R, sig, b, qs, nls, coarse, c, files, nmax, sijref=None):
                        sig=dict(sg, clause="value"), exp=sref[i], obs=got)
             if np.any(np.abs(got) > 1 + 1e-6):
                 R.fail("|s_ij| > 1", sub="C09.bounds", sig=dict(sg, clause="sij_bound"), obs=got)
+            if not csv:
+                continue
             lo = int(np.sum(sref[i] > c + 1e-6))
             hi = int(np.sum(sref[i] > c - 1e-6))
             cnt = int(tab["sum_sij"][f * n + i])
@@ -239,10 +273,16 @@ def check_sij(R, sig, b, qs, nls, coarse, c, files, nmax, sijref=None):
                 R.fail(f"count of s_ij > {c} for particle {i}: {cnt}, reference [{lo},{hi}] of {ni} bonds", sub="C09.sij",
                        sig={"clause": "count", "c_negative": bool(c < 0), "coarse": coarse}, exp=[lo, hi], obs=cnt)
     if files:
-        back = np.loadtxt(txt, skiprows=1, ndmin=2)
-        head = open(txt).readline().split()
-        if head != ["id", "CN", "sij"] or back.shape != arr[:, :2 + maxcn].shape or not np.allclose(back, arr[:, :2 + maxcn], rtol=0, atol=0.5000001e-6):
-            R.fail("s_ij text file differs from the returned array beyond %.6f", sub="C09.sij", sig=dict(sg, clause="file"))
+        rows = Y.read_tokens(txt)
+        if rows is None or rows[0] != ["id", "CN", "sij"] or len(rows) != 1 + F * n or any(len(r) != 2 + maxcn for r in rows[1:]):
+            R.fail(f"s_ij text file: missing, wrong header or not {F * n} rows x (2 + largest cn {maxcn}) columns", sub="C09.sij", sig=dict(sg, clause="file"))
+        elif not all(Y.INT_.match(r[0]) and Y.INT_.match(r[1]) and all(Y.FIX6.match(t) for t in r[2:]) for r in rows[1:]):
+            R.fail("s_ij text file is not written as '%d %d %.6f ..'", sub="C09.sij", sig=dict(sg, clause="file_format"))
+        else:
+            back = np.array([[float(t) for t in r] for r in rows[1:]])
+            if not np.allclose(back, arr[:, :2 + maxcn], rtol=0, atol=0.5000001e-6):
+                R.fail("s_ij text file differs from the returned array beyond %.6f", sub="C09.sij", sig=dict(sg, clause="file"))
+        Y.rm(txt)
     return elem
 
 
@@ -648,6 +688,13 @@ def gen_crystals(tier, seed):
         for l in (4, 6):
             for shift in (False, True):
                 yield {"kind": "periodic", "name": name, "l": l, "shift": shift}
+    # the same crystals dilated by exact powers of two to a cell edge of ~1e-9 (SI units) and ~1e9: every bond direction is unchanged
+    for dil in (-33, 27):
+        for l in (4, 6):
+            for name in ("fcc", "hcp", "bcc8", "bcc14", "sc", "ico"):
+                yield {"kind": "cluster", "name": name, "l": l, "rot": True, "shell_lists": True, "dil": dil}
+                if name != "ico":
+                    yield {"kind": "periodic", "name": name, "l": l, "shift": True, "dil": dil}
     if tier == "thorough":
         for name in ("fcc", "hcp", "bcc8", "bcc14", "sc", "ico"):
             for l in (2, 3, 5, 7, 8, 9, 10, 11, 12):
@@ -659,7 +706,8 @@ def run_crystals(case):
 
     R = Result()
     name, l = case["name"], case["l"]
-    sig = {"kind": case["kind"], "crystal": name, "l": l}
+    sig = {"kind": case["kind"], "crystal": name, "l": l, "dilated": bool(case.get("dil"))}
+    dil = 2.0 ** case.get("dil", 0)
     tab = B.TABLE[name]
     if case["kind"] == "cluster":
         sh = np.array(B.SHELLS[name](), float)
@@ -677,19 +725,21 @@ def run_crystals(case):
         else:
             nl = [list(range(1, n))] + [[0] for _ in range(1, n)]
         centre = [0]
+        pos, Hc = pos * dil, Hc * dil
     else:
         pos, L, rc = supercell(name)
+        pos, L, rc = pos * dil, [x * dil for x in L], rc * dil
         Hc = np.diag(L)
         ppp = [1, 1, 1]
         n = len(pos)
         if case["shift"]:
-            pos = (pos + np.array([0.37, 1.9, -0.6])) % np.array(L)
+            pos = (pos + np.array([0.37, 1.9, -0.6]) * dil) % np.array(L)
         nl = []
         from mc.ref.base import pair_table
 
         _, dist = pair_table(pos, Hc, ppp)
         for i in range(n):
-            nl.append([j for j in range(n) if j != i and dist[i, j] < rc + 1e-6])
+            nl.append([j for j in range(n) if j != i and dist[i, j] < rc * (1 + 1e-6)])
         centre = list(range(n))
     write_neighbor_file("c09_nb.dat", [nl])
     snaps = mk_snaps([pos], Hc, [1] * n)
@@ -993,6 +1043,11 @@ SEQ_TOPO = [
 
 
 def gen_sequence(tier, seed):
+    yield from gen_sequence_object(tier, seed)
+    yield from gen_words(tier, seed)
+
+
+def gen_sequence_object(tier, seed):
     roots = [(4, "none", "trivar"), (6, "two", "orth")] if tier == "quick" else [(4, "none", "trivar"), (6, "two", "orth"), (7, "two", "tri"), (4, "two", "tri2")]
     for l, wmode, cell in roots:
         for a in range(len(SEQ_LETTERS)):
@@ -1054,6 +1109,8 @@ def run_sequence(case):
     """Explicit-state search over call sequences on ONE boo_3d object (state = sequence of calls made so far; every sequence starts from
     a freshly built object): the result of every call must equal the result of the same call on a fresh object, whatever was called
     before; a second object (other degree, files, configurations) stays alive meanwhile and must be unaffected."""
+    if case.get("part") == "words":
+        return run_words(case, refcheck=word_refcheck)
     R = Result()
     sig = {"l46": case["l"] in (4, 6), "wmode": case["wmode"], "cell": case["cell"]}
     nL = len(SEQ_LETTERS)
@@ -1090,6 +1147,497 @@ def run_sequence(case):
     R.outcome([case["first"], case["depth"]] + [x for x in fresh[case["first"]]], nd=8)
     R.nontrivial = True
     return R
+
+
+# ------------------------------------------------------------------------------------------ C09.frames (L2 / L4: frame CLASSES)
+# Anything decided once from frame 0 and reused is visible only if frame 0 is of another CLASS than a later frame: table width
+# (read_neighbors trims every frame to ITS largest coordination number, for the neighbour and for the weight file), orthogonal
+# vs tilted cell at constant edge lengths, all-equal (unweighted-looking) vs varied vs zero-containing vs integer-token weights.
+FR_LS = [4, 7, 6, 3, 12, 2, 5, 11, 8, 10, 9]
+FR_CELLS = ("orth", "tri", "tri2")
+FR_W = ("equal", "var", "zero", "int")
+
+
+def frames_case(seed, topo, cells, wcl, k):
+    return {"seed": seed, "topo": list(topo), "cells": list(cells), "wcl": None if wcl is None else list(wcl), "l": FR_LS[k % len(FR_LS)],
+            "nmax": ("default", "tight", "below")[k % 3], "uneven": bool(len(topo) == 3 and k % 2)}
+
+
+def gen_frames(tier, seed):
+    q = tier == "quick"
+    k = 0
+    cellpairs = [("orth", "orth"), ("orth", "tri"), ("tri", "orth"), ("tri", "tri2")] if q else list(itertools.product(FR_CELLS, repeat=2))
+    wpairs = [None, ("equal", "var"), ("var", "equal"), ("var", "zero"), ("zero", "var"), ("int", "var")] if q else [None] + list(itertools.product(FR_W, repeat=2))
+    for ta in Y.TOPO_NAMES:
+        for tb in Y.TOPO_NAMES:
+            for cp in cellpairs:
+                for wp in wpairs:
+                    yield frames_case(seed, (ta, tb), cp, wp, k)
+                    k += 1
+    t3 = ("wideF", "one", "mid") if q else Y.TOPO_NAMES
+    for tt in itertools.product(t3, repeat=3):
+        for ct in (("orth", "tri", "tri2"), ("tri", "orth", "tri"), ("tri2", "tri", "orth")):
+            for wt in (None, ("equal", "var", "zero"), ("zero", "int", "equal")):
+                yield frames_case(seed, tt, ct, wt, k)
+                k += 1
+
+
+def frames_inputs(case, d=3):
+    """cells, Cartesian frames, per-frame lists and weights (as written to the files) of a frame-class case"""
+    F = len(case["topo"])
+    Hs = [cell3(c) for c in case["cells"]]
+    frames = [np.array(positions(case["seed"], 5, "cluster", Hs[f], tag=f"fr{f}{case['cells'][f]}")) for f in range(F)]
+    nls = [Y.TOPO5[t] for t in case["topo"]]
+    wts = None if case["wcl"] is None else [Y.weights_class(nls[f], case["wcl"][f], f) for f in range(F)]
+    return Hs, frames, nls, wts
+
+
+def frames_nmax(case, nls, wts):
+    """Nmax of the case: 30, the largest coordination number of the trajectory, or one below it (then the widest frames are cut to their
+    first Nmax entries while the narrow ones are not); 'below' falls back to 'tight' where the cut would leave a particle without a
+    neighbour or with weights summing to zero (outside the domain)"""
+    maxcn = max(len(x) for nl in nls for x in nl)
+    if case["nmax"] == "default":
+        return 30
+    if case["nmax"] == "below" and maxcn >= 2:
+        _, w2 = X.truncate(nls, wts, maxcn - 1)
+        if w2 is None or all(sum(abs(v) for v in row) > 0 for fr in w2 for row in fr):
+            return maxcn - 1
+    return maxcn
+
+
+def frames_sig(case):
+    cl = ["orth" if c == "orth" else "tilted" for c in case["cells"]]
+    mx = [Y.MAXCN5[t] for t in case["topo"]]
+    return {"F": len(case["topo"]), "cells": "same" if len(set(case["cells"])) == 1 else f"{cl[0]}-first", "wfirst": case["wcl"][0] if case["wcl"] else "none",
+            "width": "same" if len(set(mx)) == 1 else ("widest-first" if mx[0] == max(mx) else ("narrowest-first" if mx[0] == min(mx) else "mixed")), "nmax": case["nmax"]}
+
+
+def run_frames(case):
+    from PyMatterSim.static.boo import boo_3d
+
+    R = Result()
+    l, ppp = case["l"], [1, 1, 1]
+    Hs, frames, nls_file, wts_file = frames_inputs(case)
+    F = len(frames)
+    sig = frames_sig(case)
+    if min(screen_margin([fr], H, ppp) for fr, H in zip(frames, Hs)) < 1e-7:
+        return R.screen()
+    write_neighbor_file("c09_fr_nb.dat", nls_file)
+    if wts_file is not None:
+        Y.write_weights_tokens("c09_fr_w.dat", wts_file, case["wcl"], "id   cn   facearealist")
+    nmax = frames_nmax(case, nls_file, wts_file)
+    nls, wts = X.truncate(nls_file, wts_file, nmax)
+    steps = [500, 600, 900] if case["uneven"] else [500 + 100 * f for f in range(F)]
+    snaps = mk_snaps([f.tolist() for f in frames], np.array(Hs), [1] * 5, steps=steps)
+    b = boo_3d(snaps, l, "c09_fr_nb.dat", weightsfile="c09_fr_w.dat" if wts is not None else None, ppp=np.array(ppp), Nmax=nmax)
+    ref = [B.ref_qlm(frames[f], Hs[f], ppp, nls[f], l, wts[f] if wts is not None else None) for f in range(F)]
+    qs, Qs = np.array([r[0] for r in ref]), np.array([r[1] for r in ref])
+    where = f"frames {case['topo']} x cells {case['cells']} x weights {case['wcl']} (Nmax={nmax}, l={l})"
+    if b.smallqlm.shape != qs.shape or not close(b.smallqlm, qs):
+        bad = "shape" if b.smallqlm.shape != qs.shape else int(np.argwhere(~np.isclose(b.smallqlm, qs, rtol=1e-9, atol=1e-11))[0][0])
+        R.fail(f"q_lm of frame {bad} differs from the definition applied to that frame's own cell / neighbour table / weights: {where}",
+               sub="C09.weights" if wts is not None else "C09.qlm", sig=dict(sig, clause="qlm"), exp=qs, obs=b.smallqlm)
+        return R
+    if not close(b.largeQlm, Qs):
+        R.fail(f"coarse-grained Q_lm differs by {maxdiff(b.largeQlm, Qs):.3e}: {where}", sub="C09.coarse", sig=dict(sig, clause="Qlm"))
+        return R
+    el = 2 * qs.size
+    popl = 0
+    outs = []
+    for coarse, ser in ((False, qs), (True, Qs)):
+        got = b.ql_Ql(coarse_graining=coarse)
+        outs.append(got)
+        if got.shape != (F, 5) or not close(got, B.ref_ql(ser, l)):
+            R.fail(f"{'Q_l' if coarse else 'q_l'} differs: {where}", sub="C09.ql", sig=dict(sig, clause="ql", coarse=coarse))
+        elif np.any(got < 0) or np.any(got > 1 + 1e-12):
+            R.fail(f"q_l outside [0, 1]: {where}", sub="C09.bounds", sig=dict(sig, clause="ql_bound", coarse=coarse))
+        check_time(R, sig, b.time_corr(coarse_graining=coarse, dt=0.002), ser, steps, 0.002, coarse)
+        sref = B.ref_spatial(frames, np.array(Hs), ppp, 0.5, ser, "vector")
+        popl = max(popl, check_spatial(R, sig, b.spatial_corr(coarse_graining=coarse, rdelta=0.5), sref, coarse))
+        el += got.size + F + 2 * len(sref["r"])
+    el += check_sij(R, sig, b, list(qs), nls, False, 0.7, True, nmax)
+    el += check_sij(R, sig, b, list(Qs), nls, True, -0.5, False, nmax)
+    R.outcome(outs, nd=8)
+    R.nontrivial = bool(np.abs(qs).sum() > 1e-6 and popl >= 1)
+    R.elem = el
+    return R
+
+
+# ------------------------------------------------------------------------------------------ C09.files (every output-file branch)
+FILE_NAMES = ["plain", "plain.npy", "text.dat", "text.txt", "odd.dat.npy"]  # np.save appends .npy unless present; .dat / .txt add a text file
+
+
+def gen_files(tier, seed):
+    q = tier == "quick"
+    seqs = [("wideF",), ("one", "wideL"), ("mid", "one", "two")] if q else [(t,) for t in Y.TOPO_NAMES] + [("one", "wideL"), ("wideF", "one"), ("mid", "one", "two"), ("two", "wideL", "one")]
+    k = 0
+    for topo in seqs:
+        for wcl in (None, "var"):
+            cells = [FR_CELLS[(f + k) % 3] for f in range(len(topo))]
+            for kind, ls in (("ql", (4, 7) if q else LS), ("sij", (4, 7) if q else LS), ("w", (4, 3) if q else (2, 3, 4, 5, 6))):
+                for l in ls:
+                    c = frames_case(seed, topo, cells, None if wcl is None else [wcl] * len(topo), 0)
+                    c.update(l=l, kind=kind, nmax="tight" if k % 2 else "default", uneven=False)
+                    yield c
+            k += 1
+
+
+def file_pair(R, sg, name, got, ref, what, sub):
+    """files written for ONE returned array `got` (F, N) under `name`: the .npy file holds it bit for bit; a .dat / .txt name additionally
+    holds it as F rows x N columns of %.6f; both must also agree with the reference value `ref`"""
+    npy = Y.npy_name(name)
+    if not os.path.exists(npy):
+        R.fail(f"{what}: {npy} was not written for the name {name!r}", sub=sub, sig=dict(sg, clause="file_missing"))
+    else:
+        back = np.load(npy)
+        if back.shape != got.shape or not np.array_equal(back, got, equal_nan=True):
+            R.fail(f"{what}: {npy} differs from the returned array", sub=sub, sig=dict(sg, clause="file_npy"), exp=got, obs=back)
+    if Y.is_text_name(name) and np.isfinite(got).all():
+        txt, prob = Y.fixed6_table(name, got.shape)
+        if prob:
+            R.fail(f"{what}: {prob}", sub=sub, sig=dict(sg, clause="file_text_layout"))
+        elif not (np.allclose(txt, got, rtol=0, atol=0.5000001e-6) and np.allclose(txt, ref, rtol=1e-9, atol=0.50001e-6)):
+            R.fail(f"{what}: text file {name} differs from the returned values beyond %.6f (max {maxdiff(txt, got):.3e})", sub=sub,
+                   sig=dict(sg, clause="file_text"), exp=got, obs=txt)
+    Y.rm(npy, name)
+    return got.size * (2 if Y.is_text_name(name) else 1)
+
+
+def run_files(case):
+    from PyMatterSim.static.boo import boo_3d
+
+    R = Result()
+    l, ppp, kind = case["l"], [1, 1, 1], case["kind"]
+    Hs, frames, nls, wts = frames_inputs(case)
+    F = len(frames)
+    sig = {"kind": kind, "F": F, "weighted": wts is not None}
+    if min(screen_margin([fr], H, ppp) for fr, H in zip(frames, Hs)) < 1e-7:
+        return R.screen()
+    write_neighbor_file("c09_fl_nb.dat", nls)
+    if wts is not None:
+        Y.write_weights_tokens("c09_fl_w.dat", wts, case["wcl"], "id   cn   facearealist")
+    nmax = frames_nmax(case, nls, wts)
+    snaps = mk_snaps([f.tolist() for f in frames], np.array(Hs), [1] * 5, steps=[500 + 100 * f for f in range(F)])
+    b = boo_3d(snaps, l, "c09_fl_nb.dat", weightsfile="c09_fl_w.dat" if wts is not None else None, ppp=np.array(ppp), Nmax=nmax)
+    ref = [B.ref_qlm(frames[f], Hs[f], ppp, nls[f], l, wts[f] if wts is not None else None) for f in range(F)]
+    qs, Qs = np.array([r[0] for r in ref]), np.array([r[1] for r in ref])
+    if not (b.smallqlm.shape == qs.shape and close(b.smallqlm, qs) and close(b.largeQlm, Qs)):
+        R.fail("q_lm / Q_lm differ from the reference", sub="C09.qlm", sig=dict(sig, clause="qlm"))
+        return R
+    el = 0
+    outs = []
+    for coarse, ser in ((False, qs), (True, Qs)):
+        sg = dict(sig, coarse=coarse)
+        if kind == "ql":
+            exp = B.ref_ql(ser, l)
+            for nm in [None, ""] + FILE_NAMES:
+                name = ("c09_fl_ql_" + nm) if nm else nm
+                if name:
+                    Y.rm(name, Y.npy_name(name))
+                got = b.ql_Ql(coarse_graining=coarse, outputfile=name)
+                outs.append(got)
+                if got.shape != (F, 5) or not close(got, exp):
+                    R.fail(f"ql_Ql(outputfile={name!r}) returns something else than q_l", sub="C09.ql", sig=dict(sg, clause="ql_with_file"), exp=exp, obs=got)
+                    continue
+                if name:
+                    el += file_pair(R, sg, name, got, exp, f"ql_Ql(coarse_graining={coarse})", "C09.files")
+        elif kind == "sij":
+            for csv in (True, False):
+                for files in (True, False):
+                    el += check_sij(R, dict(sig, csv=csv, sijfile=files), b, list(ser), nls, coarse, 0.7 if csv == files else -0.5, files, nmax, csv=csv)
+            outs.append(B.ref_ql(ser, l))
+        else:
+            rw, rwc = zip(*[B.ref_w(ser[f], l) for f in range(F)])
+            rw, rwc = np.array(rw), np.array(rwc)
+            for n1 in [None] + FILE_NAMES:
+                for n2 in [None] + FILE_NAMES:
+                    a = ("c09_fl_w_" + n1) if n1 else None
+                    c = ("c09_fl_wc_" + n2) if n2 else None
+                    Y.rm(a, c, Y.npy_name(a) if a else None, Y.npy_name(c) if c else None)
+                    w, wc = b.w_W_cap(coarse_graining=coarse, outputw=a, outputwcap=c)
+                    outs += [w, wc]
+                    if w.shape != (F, 5) or not close(w, rw, rtol=1e-9, atol=1e-12) or not close(wc, rwc, rtol=1e-8, atol=1e-11):
+                        R.fail(f"w_W_cap(outputw={a!r}, outputwcap={c!r}) returns something else than w_l / w-hat_l", sub="C09.w", sig=dict(sg, clause="w_with_file"))
+                        continue
+                    if a:
+                        el += file_pair(R, dict(sg, which="w"), a, w, rw, f"w_W_cap(outputw) coarse={coarse}", "C09.files")
+                    if c:
+                        el += file_pair(R, dict(sg, which="wcap"), c, wc, rwc, f"w_W_cap(outputwcap) coarse={coarse}", "C09.files")
+    R.outcome(outs, nd=8)
+    R.nontrivial = bool(np.abs(qs).sum() > 1e-6)
+    R.elem = max(el, 1)
+    return R
+
+
+# ------------------------------------------------------------------------------------------ C09.types (L5 storage / argument forms, L4 geometry)
+FACE3 = [[0.0, 0.0, 0.0], [6.0, 1.0, 2.0], [1.5, 7.0, 0.0], [2.0, 2.0, 8.0], [3.5, 0.0, 5.0]]  # a particle at the origin, on the upper x / y / z faces, on the y = 0 face
+TYPE_FORMS = ["base", "ppp_list", "ppp_tuple", "ppp_bool", "ppp_int32", "pos_f32", "pos_fortran", "pos_strided", "l_npint", "nmax_npint", "face",
+              "unwrapped", "dilate-33", "dilate+27", "zero_opts", "h_fortran", "w_x2^-33", "w_x1e-9", "w_x2^27", "step_2e9"]
+WSCALE = {"w_x2^-33": 2.0 ** -33, "w_x1e-9": 1e-9, "w_x2^27": 2.0 ** 27}  # Voronoi face areas in SI units: the normalised weights are scale-free
+UNWRAP_N = [[0, 2, -3], [4, 0, 2], [-3, 4, 0], [2, -3, 4], [0, 0, -2]]  # whole cell vectors added to particle i (L7); the second frame uses the negatives
+DILATE = {"dilate-33": 2.0 ** -33, "dilate+27": 2.0 ** 27}  # edge ~1e-9 (SI units) / ~1e9: exact powers of two, every bond DIRECTION is unchanged
+
+
+def gen_types(tier, seed):
+    q = tier == "quick"
+    for ti, topo in enumerate(Y.TOPO_NAMES):
+        for form in TYPE_FORMS:
+            for l in (((4, 6, 11) if form.startswith("dilate") else (3, 6, 11)) if q else LS):
+                for cell in ("orth", "tri"):
+                    masks = ([1, 1, 1], [1, 0, 1]) if form.startswith("ppp") or form in ("base", "unwrapped") else ([1, 1, 1],)
+                    for ppp in masks:
+                        for wcl in (None, "int" if form == "base" else "var"):
+                            if (form == "l_npint" and l > 6) or (form in WSCALE and wcl is None):
+                                continue
+                            yield {"seed": seed, "topo": [topo, Y.TOPO_NAMES[(ti + 2) % 5]], "cells": [cell, cell], "wcl": None if wcl is None else [wcl, "zero"], "l": l,
+                                   "form": form, "ppp": list(ppp), "nmax": "tight" if form == "nmax_npint" else "default", "uneven": False}
+
+
+def run_types(case):
+    from PyMatterSim.static.boo import boo_3d
+
+    R = Result()
+    l, ppp, form = case["l"], case["ppp"], case["form"]
+    Hs, frames, nls, wts = frames_inputs(case)
+    if form == "face":
+        frames = [np.array(FACE3, float), np.array(FACE3, float)[::-1].copy()]
+    if form in WSCALE:
+        wts = [[[x * WSCALE[form] for x in row] for row in fr] for fr in wts]
+    F = len(frames)
+    sig = {"form": form, "cell": case["cells"][0], "masked": bool(0 in ppp), "weighted": wts is not None}
+    if min(screen_margin([fr], H, ppp) for fr, H in zip(frames, Hs)) < 1e-7:
+        return R.screen()
+    if form == "unwrapped":  # unfolded coordinates (xu yu zu) several cells away along the periodic axes
+        frames = [fr + sgn * (np.array(UNWRAP_N) * np.array(ppp)) @ Hs[f] for f, (fr, sgn) in enumerate(zip(frames, (1, -1)))]
+    dil = DILATE.get(form, 1.0)
+    frames = [fr * dil for fr in frames]
+    Hs = [H * dil for H in Hs]
+    write_neighbor_file("c09_ty_nb.dat", nls)
+    if wts is not None:
+        Y.write_weights_tokens("c09_ty_w.dat", wts, case["wcl"], "id   cn   facearealist")
+    nmax = frames_nmax(case, nls, wts)
+    steps = [2_000_000_500, 2_000_000_600] if form == "step_2e9" else [500, 600]  # L9: timesteps beyond int32 with small increments
+    store = {"pos_f32": "f32", "pos_fortran": "fortran", "pos_strided": "strided", "h_fortran": "fortran"}.get(form, "c")
+    arrays = [Y.store_positions(f, store) for f in frames]
+    keep = [a.copy() for a in arrays]
+    snaps = Y.mk_snaps_raw(arrays, Hs, steps, hform="fortran" if form == "h_fortran" else "c")
+    pa = {"ppp_list": list(ppp), "ppp_tuple": tuple(ppp), "ppp_bool": np.array(ppp, dtype=bool), "ppp_int32": np.array(ppp, dtype=np.int32)}.get(form, np.array(ppp))
+    la = np.int64(l) if form == "l_npint" else l
+    na = np.int32(nmax) if form == "nmax_npint" else nmax
+    b = boo_3d(snaps, la, "c09_ty_nb.dat", weightsfile="c09_ty_w.dat" if wts is not None else None, ppp=pa, Nmax=na)
+    # float32 positions: the reference sees the float32 numbers; the bond differences are formed in float32 by the library (1e-7 relative)
+    rt, at = (2e-6, 2e-6) if form == "pos_f32" else (1e-9, 1e-11)
+    ref = [B.ref_qlm(np.asarray(keep[f], float), Hs[f], ppp, nls[f], l, wts[f] if wts is not None else None) for f in range(F)]
+    qs, Qs = np.array([r[0] for r in ref]), np.array([r[1] for r in ref])
+    where = f"form {form}, frames {case['topo']}, cell {case['cells'][0]}, ppp {ppp}, l={l}"
+    if b.smallqlm.shape != qs.shape or not close(b.smallqlm, qs, rt, at) or not close(b.largeQlm, Qs, rt, at):
+        R.fail(f"q_lm / Q_lm differ from the reference by {maxdiff(b.smallqlm, qs):.3e} / {maxdiff(b.largeQlm, Qs)}: {where}",
+               sub="C09.weights" if wts is not None else "C09.qlm", sig=dict(sig, clause="qlm"))
+        return R
+    el = 2 * qs.size
+    outs = []
+    for coarse, ser in ((False, qs), (True, Qs)):
+        got = b.ql_Ql(coarse_graining=coarse)
+        outs.append(got)
+        if got.shape != (F, 5) or not close(got, B.ref_ql(ser, l), rt, at):
+            R.fail(f"{'Q_l' if coarse else 'q_l'} differs: {where}", sub="C09.ql", sig=dict(sig, clause="ql", coarse=coarse))
+        el += got.size
+        if form == "pos_f32":
+            continue  # bin / threshold decisions on float32 distances are not demanded
+        for dt in ((0.0, 0) if form == "zero_opts" else (0.002,)):  # L8: an explicit zero is a value, not "use the default"
+            check_time(R, sig, b.time_corr(coarse_graining=coarse, dt=dt), ser, steps, dt, coarse)
+        if dil != 1.0:
+            continue  # the pair histogram of a dilated cell belongs to C13 (the reference's edge tolerance is absolute)
+        sref = B.ref_spatial([np.asarray(k, float) for k in keep], np.array(Hs), ppp, 0.5, ser, "vector")
+        check_spatial(R, sig, b.spatial_corr(coarse_graining=coarse, rdelta=0.5), sref, coarse)
+        el += F + 2 * len(sref["r"])
+    if form != "pos_f32":
+        el += check_sij(R, sig, b, list(qs), nls, False, 0 if form == "zero_opts" else 0.7, False, nmax)
+    if (form == "l_npint" or dil != 1.0) and l <= 6:
+        e2, _ = check_w(R, sig, b, ((False, list(qs)),), l)
+        el += e2
+    for a, k0 in zip(arrays, keep):
+        if a.dtype != k0.dtype or not np.array_equal(a, k0):
+            R.fail(f"the position array was modified: {where}", sub="C09.qlm", sig=dict(sig, clause="input_modified"))
+    for s_, H in zip(snaps.snapshots, Hs):
+        if not np.array_equal(s_.hmatrix, H) or s_.hmatrix.flags["F_CONTIGUOUS"] != (form == "h_fortran"):
+            R.fail(f"the cell matrix of the snapshot was modified: {where}", sub="C09.qlm", sig=dict(sig, clause="hmatrix_modified"), exp=H, obs=s_.hmatrix)
+    R.outcome(outs, nd=5 if form == "pos_f32" else 8)
+    R.nontrivial = bool(np.abs(qs).sum() > 1e-6)
+    R.elem = el
+    return R
+
+
+# ------------------------------------------------------------------------------------------ C09.sequence, part "words" (L6)
+# Letters are COMPLETE argument tuples (object + call) chosen so that pairs collide in plausible incomplete memo keys: same l / other
+# neighbour file (a0-b0), same neighbour file (name and content) / other configurations (a0-c0), same files / other l (a0-d0), odd l after
+# even l for the 3j table (a3-e3), same file NAME / other content (s0-s1), weighted / unweighted on the same files (a0-w0), a 2D object
+# before / after a 3D one on the same neighbour file (a0-p0), and several calls on ONE object (a0 a1 a2 a3; p0 p1).  Objects with an
+# "obj" key are built once per word and stay alive (two objects alive at once); the s-letters always build a new object.
+WORD_LETTERS = [
+    {"id": "a0", "obj": "A4", "d": 3, "l": 4, "pos": "P", "topo": "T", "w": None, "call": ["ql", False]},
+    {"id": "a1", "obj": "A4", "d": 3, "l": 4, "pos": "P", "topo": "T", "w": None, "call": ["ql", True]},
+    {"id": "a2", "obj": "A4", "d": 3, "l": 4, "pos": "P", "topo": "T", "w": None, "call": ["sij", False, 0.7]},
+    {"id": "a3", "obj": "A4", "d": 3, "l": 4, "pos": "P", "topo": "T", "w": None, "call": ["w", False]},
+    {"id": "b0", "obj": "B4", "d": 3, "l": 4, "pos": "P", "topo": "U", "w": None, "call": ["ql", False]},
+    {"id": "c0", "obj": "C4", "d": 3, "l": 4, "pos": "R", "topo": "T", "w": None, "call": ["ql", False]},
+    {"id": "d0", "obj": "A6", "d": 3, "l": 6, "pos": "P", "topo": "T", "w": None, "call": ["ql", False]},
+    {"id": "e3", "obj": "A3", "d": 3, "l": 3, "pos": "P", "topo": "T", "w": None, "call": ["w", False]},
+    {"id": "s0", "obj": None, "d": 3, "l": 4, "pos": "P", "topo": "T", "w": None, "call": ["sij", True, 0.3], "shared": True},
+    {"id": "s1", "obj": None, "d": 3, "l": 4, "pos": "P", "topo": "U", "w": None, "call": ["sij", True, 0.3], "shared": True},
+    {"id": "w0", "obj": "W4", "d": 3, "l": 4, "pos": "P", "topo": "T", "w": "var", "call": ["ql", False]},
+    {"id": "p0", "obj": "P4", "d": 2, "l": 4, "pos": "P", "topo": "T", "w": None, "call": ["ta", "0.4", True]},
+    {"id": "p1", "obj": "P4", "d": 2, "l": 4, "pos": "P", "topo": "T", "w": None, "call": ["ta", "0.4", False]},
+    {"id": "p2", "obj": None, "d": 2, "l": 4, "pos": "P", "topo": "U", "w": None, "call": ["ta", "0.4", True], "shared": True},
+]
+WORD_TRIPLES_QUICK = [["a0", "a1", "a0"], ["a3", "e3", "a3"], ["a0", "d0", "a0"], ["s0", "s1", "s0"], ["p0", "a0", "p1"], ["p2", "s0", "p2"], ["a0", "b0", "a2"], ["w0", "a0", "w0"]]
+WORD_TOPO = {"T": [0, 1, 2], "U": [1, 2, 0]}  # per-frame indices into SEQ_TOPO
+
+
+def word_inputs(seed, lt):
+    """cells, frames (3 frames of 6 particles), lists and weights of a letter; the 2D letters use the xy sub-cell"""
+    d = lt["d"]
+    if d == 3:
+        H = cell3("tri")
+        Hc = [np.diag(np.diag(H)) + (H - np.diag(np.diag(H))) * f for f in (1.0, -1.0, 0.0)]  # tilted, tilted the other way, orthogonal
+    else:
+        Hc = [A.hmat_tri([6.0, 7.0], [t]) for t in (1.5, -1.5, 0.0)]
+    frames = [np.array(A.generic_points(seed, 6, d, tag=f"c09wd{lt['pos']}{d}f{f}_")) for f in range(3)]
+    frames = [(((fr - 0.5) * 0.45) % 1.0) @ Hc[f] for f, fr in enumerate(frames)]
+    nls = [SEQ_TOPO[k] for k in WORD_TOPO[lt["topo"]]]
+    wts = None if lt["w"] is None else [Y.weights_class(nls[f], lt["w"], f, signed=(d == 2)) for f in range(3)]
+    return Hc, frames, nls, wts
+
+
+def word_build(seed, lt, prefix):
+    from PyMatterSim.static.boo import boo_2d, boo_3d
+
+    Hc, frames, nls, wts = word_inputs(seed, lt)
+    nf = f"{prefix}_shared_nb.dat" if lt.get("shared") else f"{prefix}_{lt['topo']}_nb.dat"
+    write_neighbor_file(nf, nls)
+    wf = None
+    if wts is not None:
+        wf = f"{prefix}_{lt['topo']}{lt['w']}_w.dat"
+        Y.write_weights_tokens(wf, wts, [lt["w"]] * 3, "id   cn   facearealist" if lt["d"] == 3 else "id   cn   edgelengthlist")
+    snaps = mk_snaps([f.tolist() for f in frames], np.array(Hc), [1] * 6, steps=[500, 600, 700])
+    if lt["d"] == 3:
+        return boo_3d(snaps, lt["l"], nf, weightsfile=wf, ppp=np.array([1, 1, 1]), Nmax=6)
+    return boo_2d(snaps, lt["l"], nf, weightsfile=wf or "", ppp=np.array([1, 1]), Nmax=6)
+
+
+def word_call(b, lt, prefix):
+    import pandas as pd
+
+    c = lt["call"]
+    if c[0] == "ql":
+        return [b.smallqlm, b.ql_Ql(coarse_graining=c[1])]
+    if c[0] == "sij":
+        csvf = f"{prefix}_cnt.csv"
+        ret = b.sij_ql_Ql(coarse_graining=c[1], c=c[2], outputqlQl=csvf)
+        tab = pd.read_csv(csvf).values.astype(float)
+        os.remove(csvf)
+        return [np.asarray(x, float) for x in ret] + [tab]
+    if c[0] == "w":
+        return list(b.w_W_cap(coarse_graining=c[1]))
+    if c[0] == "ta":
+        avg, ids = b.time_average(time_period=float(c[1]), dt=0.002, average_complex=c[2])
+        return [b.ParticlePhi, np.asarray(avg), np.asarray(ids, float)]
+    if c[0] == "sp":
+        return [b.spatial_corr(rdelta=c[1]).values.astype(float)]
+    if c[0] == "tc":
+        return [b.time_corr(dt=c[1]).values.astype(float)]
+    raise ValueError(c)
+
+
+def words_child(case, letters, prefix):
+    objs = {}
+    out = []
+    for k in case["word"]:
+        lt = letters[k]
+        if lt["obj"] is None:
+            b = word_build(case["seed"], lt, prefix)
+        else:
+            if lt["obj"] not in objs:
+                objs[lt["obj"]] = word_build(case["seed"], lt, prefix)
+            b = objs[lt["obj"]]
+        out.append([Y.arr_json(x) for x in word_call(b, lt, prefix)])
+    return out
+
+
+def _c09_words_child(case):
+    return words_child(case, WORD_LETTERS, "c09_wd")
+
+
+def gen_words(tier, seed, letters=WORD_LETTERS, triples=WORD_TRIPLES_QUICK):
+    n = len(letters)
+    ids = [lt["id"] for lt in letters]
+    for Lw in (1, 2) if tier == "quick" else (1, 2, 3):
+        for word in itertools.product(range(n), repeat=Lw):
+            yield {"part": "words", "word": list(word), "seed": seed}
+    if tier == "quick":
+        for t in triples:
+            yield {"part": "words", "word": [ids.index(x) for x in t], "seed": seed}
+
+
+_WORD_FRESH = {}
+
+
+def run_words(case, letters=WORD_LETTERS, child=None, sub="C09.sequence", cache=_WORD_FRESH, refcheck=None):
+    """every call of the word returns bit for bit what the same call returns when made FIRST in a fresh child process (re-imported library)"""
+    from mc.ref import c03x as X3
+
+    child = child or _c09_words_child
+    R = Result()
+    seed = case["seed"]
+    names = [letters[k]["id"] for k in case["word"]]
+    payload = X3.fresh_child(child, case, Y.LIB_MODS)
+    if "err" in payload:
+        R.fail(f"call word {names} raised {payload['err']}", sub=sub, sig={"part": "words", "exception": True})
+        return R
+    for k in set(case["word"]):
+        if (seed, k) not in cache:
+            one = X3.fresh_child(child, {"seed": seed, "word": [k]}, Y.LIB_MODS)
+            if "err" in one:
+                R.fail(f"single call {letters[k]['id']} raised {one['err']}", sub=sub, sig={"part": "words", "exception": True})
+                return R
+            cache[(seed, k)] = one["ok"][0]
+    for pos_, (k, got) in enumerate(zip(case["word"], payload["ok"])):
+        lt = letters[k]
+        if not Y.json_equal(got, cache[(seed, k)]):
+            prev = [letters[j] for j in case["word"][:pos_]]
+            feats = sorted({f for p in prev for f in ("d", "l", "pos", "topo", "w", "obj") if p[f] != lt[f]}) if prev else []
+            R.fail(f"call #{pos_ + 1} ({lt['id']}: d={lt['d']} l={lt['l']} files {lt['pos']}/{lt['topo']}/{lt['w']} call {lt['call']}) of the word {names} differs from the "
+                   f"same call made first in a fresh process", sub=sub,
+                   sig={"part": "words", "call": lt["call"][0], "d": lt["d"], "position": "later" if pos_ else "first", "differs_in": feats},
+                   exp=Y.json_arr(cache[(seed, k)][-1]), obs=Y.json_arr(got[-1]) if got else None)
+            break
+    if len(case["word"]) == 1 and refcheck is not None:
+        refcheck(R, seed, letters[case["word"][0]], [Y.json_arr(x) for x in payload["ok"][0]])
+    R.outcome(payload["ok"], nd=9)
+    R.states = len(case["word"]) + 1
+    R.transitions = len(case["word"])
+    R.elem = sum(int(np.prod(x["shape"])) for g in payload["ok"] for x in g)
+    R.nontrivial = True
+    return R
+
+
+def word_refcheck(R, seed, lt, got, sub="C09.sequence"):
+    """the single call made first in a fresh process equals the definition (ties the word oracle to the reference model)"""
+    Hc, frames, nls, wts = word_inputs(seed, lt)
+    ppp = [1] * lt["d"]
+    if min(screen_margin([fr], H, ppp) for fr, H in zip(frames, Hc)) < 1e-7:
+        return
+    if lt["d"] == 3 and lt["call"][0] == "ql":
+        ref = [B.ref_qlm(frames[f], Hc[f], ppp, nls[f], lt["l"], wts[f] if wts is not None else None) for f in range(3)]
+        q = np.array([r[0] for r in ref])
+        ser = np.array([r[1] for r in ref]) if lt["call"][1] else q
+        if not (close(got[0], q) and close(got[1], B.ref_ql(ser, lt["l"]))):
+            R.fail(f"letter {lt['id']} made first in a fresh process differs from the definition", sub=sub, sig={"part": "words", "clause": "reference"})
+    if lt["d"] == 2 and lt["call"][0] == "ta":
+        psi = np.array([B.ref_psi(frames[f], Hc[f], ppp, nls[f], lt["l"], wts[f] if wts is not None else None) for f in range(3)])
+        if not close(got[0], psi):
+            R.fail(f"letter {lt['id']} made first in a fresh process differs from the definition", sub=sub, sig={"part": "words", "clause": "reference"})
 
 
 # ------------------------------------------------------------------------------------------
@@ -1133,8 +1681,36 @@ def subs(tier, seed):
                  "plus F in " + str(SCALE_F[tier]) + " frames of 16 particles; every entry of q_lm, Q_lm, q_l, Q_l, s_ij + thresholded counts (c = 0.7, -0.3), w_l / w-hat_l (l in {4,6} rows), "
                  "spatial_corr, time_corr vs vectorised references (mc/ref/c09x.py); non-trivial = ragged lists and >= 2 populated gA bins",
             bounds={"N": SCALE_N[tier], "F": SCALE_F[tier], "max_cn": 14}),
+        Sub("C09.frames", gen_frames, run_frames,
+            rule="FRAME CLASSES (anything decided once from frame 0 is visible only when frame 0 is of another class than a later frame): trajectories of 5 particles, F=2: ALL 25 ordered pairs of "
+                 "topology classes {largest cn 4 on the first particle only, 4 on the last only, everybody 1, everybody 2, ragged with 3} (the table read from the neighbour AND the weight file shrinks to "
+                 "each frame's own largest cn: widest first / narrowest first / equal) x " + ("4" if q else "all 9") + " ordered cell-class pairs {orthogonal, tilted, tilted otherwise} at constant edge lengths "
+                 "(orthogonal first then tilted and the reverse) x " + ("{unweighted, equal->varied, varied->equal, varied->zero-containing, zero-containing->varied, integer-token->varied}" if q else
+                                                                          "unweighted + all 16 ordered pairs of weight classes {all equal, varied, one exact zero per row, integer tokens '1 2 1'}")
+                 + "; F=3: all triples over " + ("3" if q else "5") + " topology classes x 3 cell triples x 3 weight triples; l cycles through 2..12 and Nmax through {30, largest cn, largest cn - 1 (only the widest "
+                 "frames are cut)} with the case index; q_lm, Q_lm, q_l, Q_l, s_ij (+ csv count, text file), spatial_corr, time_corr (even / uneven steps) vs the loop references per frame",
+            bounds={"N": 5, "F": [2, 3], "topology_classes": 5, "cell_classes": 3, "weight_classes": 4}),
+        Sub("C09.files", gen_files, run_files,
+            rule="OUTPUT FILES: every output-file branch of ql_Ql, sij_ql_Ql and w_W_cap on " + ("3" if q else "9") + " trajectories (F = 1..3, largest cn changing per frame) x {unweighted, weighted} x l in "
+                 + ("{4,7} (w: {4,3})" if q else "2..12 (w: 2..6)") + " x {local, coarse}: ql_Ql(outputfile in {None, '', name, name.npy, name.dat, name.txt, name.dat.npy}); w_W_cap(outputw x outputwcap over the same "
+                 "6 x 6 name forms); sij_ql_Ql with {csv, no csv} x {text file, none}: the returned values equal the reference whatever files are requested, <name>[.npy] holds the returned array bit for bit, a "
+                 ".dat / .txt name additionally holds F rows x N columns written as %.6f equal to the returned (and reference) values within half a unit of the last digit, the s_ij text file has the header "
+                 "'id CN sij', F*N rows '%d %d %.6f..' trimmed to the largest cn of the trajectory, the csv integer columns id,sum_sij,num_neighbors",
+            bounds={"name_forms": FILE_NAMES}),
+        Sub("C09.types", gen_types, run_types,
+            rule="STORAGE / ARGUMENT FORMS: 5 two-frame trajectories (topology classes, second frame with an exact zero weight per row) x forms {reference form, ppp as list / tuple / bool array / int32 array, "
+                 "positions as float32 (2e-6) / Fortran-ordered / strided view, cell matrix AND positions Fortran-ordered (both must come back unchanged), l as np.int64 (+ w_W_cap), Nmax as np.int32, particles at the "
+                 "origin / exactly on box faces, UNWRAPPED coordinates shifted by whole cell vectors n.H (n in {0,+2,-3,+4,-2} per particle and periodic axis), cell and positions DILATED by 2^-33 / 2^27 (+ w_W_cap; spatial_corr "
+                 "left to C13), all weights x 2^-33 / 1e-9 / 2^27 (scale-free), explicit zero options (sij c = 0, time_corr dt = 0.0 / 0), timesteps offset by 2e9} x l in " + ("{3,6,11}" if q else "2..12")
+                 + " x {orth, tri} x masks {111, 101 for the ppp forms} x {unweighted, weighted (integer tokens in the reference form)}; q_lm, Q_lm, q_l, Q_l, s_ij, spatial_corr (ppp reaches conditional_gr), "
+                 "time_corr vs the loop references; the position arrays must come back unchanged (values, dtype)",
+            bounds={"forms": TYPE_FORMS}),
         Sub("C09.sequence", gen_sequence, run_sequence,
-            rule="explicit-state search over call sequences on ONE boo_3d object (6 particles, 3 frames with changing topology / tilts): alphabet of 13 calls = ql_Ql x {local, coarse}, "
+            rule="(b) CALL WORDS in forked children with re-imported library modules: all words of length <= " + ("2 (+ 8 triples)" if q else "3") + " over 14 letters = complete (object, call) tuples colliding "
+                 "in plausible incomplete cache keys: same l / other neighbour file, same neighbour file / other configurations, same files / other l (4, 6), odd l after even l for the 3j table (w_W_cap l=4, 3), same file "
+                 "NAME / other content, weighted / unweighted, a boo_2d object (time_average in both modes) before / after a boo_3d object on the same neighbour file, ql_Ql local / coarse / local and sij / w on ONE object; "
+                 "objects stay alive within a word; every call must return bit for bit what it returns when made first in a fresh child, and that first call equals the reference.  "
+                 "(a) explicit-state search over call sequences on ONE boo_3d object (6 particles, 3 frames with changing topology / tilts): alphabet of 13 calls = ql_Ql x {local, coarse}, "
                  "sij_ql_Ql x {(local, 0.7), (local, -0.5), (coarse, 0.3)}, spatial_corr x {(local, 0.5), (local, 0.3), (coarse, 0.5)}, time_corr x {(local, dt 0.002), (local, 0.5), "
                  "(coarse, 0.002)}, w_W_cap x {local, coarse}; all 169 ordered pairs" + ("" if q else " and all 1331 triples of the 11 calls without w_W_cap")
                  + " per root; every result must equal the same call on a fresh object, the stored q_lm / Q_lm must stay unchanged, and a second live object (other l, files, "
